@@ -460,12 +460,36 @@ def check_userff_e2e(case):
     return res
 
 
+def _ligand_cases():
+    from . import c16
+
+    return c16.complex_case().map(lambda c: dict(c, part="ligand", other=True))  # always with a foreign hetero group
+
+
+def check_ligand(case):
+    """Complexes with --ligand (generator and relations of C16): protein and water atoms keep the force
+    field's values, ligand atoms carry the MOL2-derived values, and a hetero atom that neither the
+    force field nor the MOL2 file knows is omitted and reported - never written with defaults."""
+    from . import c16
+
+    inner = c16.check_complex(case)
+    res = Result()
+    for sig, msg in inner.violations:
+        for tail in ("partition", "ligand-values", "protein-values", "water-values"):
+            if sig.endswith(":" + tail):
+                res.bad("C01:ligand:" + ("unparameterised-atom-written" if tail == "partition" else tail), msg)
+    res.nontrivial = inner.nontrivial
+    res.labels = list(inner.labels)
+    return res
+
+
 def parts(tier):
     return [
         Part("userff-e2e", check_userff_e2e, strategy=userff_e2e_case(), budget=dict(quick=160, thorough=3000)),
         Part("table", check_table, cases=table_cases, exhaustive=True),
         Part("userff", check_userff, strategy=userff_case(), budget=dict(quick=400, thorough=5000)),
         Part("e2e", check_e2e, strategy=e2e_case(), budget=dict(quick=480, thorough=10000)),
+        Part("ligand", check_ligand, strategy=_ligand_cases(), budget=dict(quick=160, thorough=3000)),
     ]
 
 
